@@ -146,6 +146,11 @@ def run_source(unit):
                 log.note(f'{clsn}/{pname}/{bg}: post-read code needs a concrete value ({str(e)[:60]}); not decided at this layer')
                 log['inconclusive'].append({'obligation': f'{clsn}/{pname}/{bg}', 'why': 'post-read code realises the value'})
             yield log.result()
+        if layer == 'module' and (clsn, pname) in ALIASES:
+            cfg = {'layer': layer, 'class': clsn, 'param': pname, 'background': 'only-this-key', 'given under the accepted name': ALIASES[(clsn, pname)]}
+            log = harness.UnitLog(cfg)
+            _one_param(log, cfg, modn, clsn, pname, layer, 'only-this-key', alias=ALIASES[(clsn, pname)])
+            yield log.result()
 
 
 _SRC = {}
@@ -242,11 +247,17 @@ def background_inputs(obj, skip):
     return d
 
 
-def _one_param(log, cfg, modn, clsn, pname, layer, bg):
+# input names a reader accepts in place of a parameter's own name (deprecated spellings): a value given under such a name is subject to the
+# same range enforcement as one given under the parameter's own name
+ALIASES = {('WellBores', 'Nonvertical Length per Multilateral Section'): 'Total Nonvertical Length'}
+
+
+def _one_param(log, cfg, modn, clsn, pname, layer, bg, alias=None):
     obj0, model0, mod = _make(modn, clsn)
     p0 = obj0.ParameterDict[pname]
     is_int = isinstance(p0, P.intParameter)
     name = p0.Name.strip()
+    name_in = alias or name
     shadows = param_shadows()
     if modn == 'hip_ra_x.hip_ra_x':
         shadows.append((mod, 'read_input_file', lambda *a, **k: None))
@@ -265,12 +276,12 @@ def _one_param(log, cfg, modn, clsn, pname, layer, bg):
             prm.AllowableRange = SymSet(prm.AllowableRange)
         else:
             tok.proxy = SymFP(z3.FP('v', core.FP64))
-        entry = P.ParameterEntry(Name=name, sValue=tok, raw_entry=f'{name}, SYMV')
+        entry = P.ParameterEntry(Name=name_in, sValue=tok, raw_entry=f'{name_in}, SYMV')
         before = prm.value
         call = reader_call(layer, obj, model, mod, pname, entry)
         if layer == 'module':
             ins = background_inputs(obj, pname) if bg == 'all-provided' else {}
-            ins[name] = entry
+            ins[name_in] = entry
             call.inputs = ins
         exc = None
         try:
@@ -286,7 +297,7 @@ def _one_param(log, cfg, modn, clsn, pname, layer, bg):
     default = p0.DefaultValue
 
     def concrete(inp):
-        return concrete_read(modn, clsn, pname, layer, bg, inp['k'] if is_int else inp['v'])
+        return concrete_read(modn, clsn, pname, layer, bg, inp['k'] if is_int else inp['v'], alias=alias)
 
     def fp_inputs(model):
         return {'v': core.fp_model_value(model, zv['v'])}
@@ -409,14 +420,15 @@ def _int_module(log, cfg, modn, clsn, pname, bg, shadows):
 KNOWN_NORMALISED = {'Reservoir Depth', 'Reservoir Impedance'}
 
 
-def concrete_read(modn, clsn, pname, layer, bg, value):
+def concrete_read(modn, clsn, pname, layer, bg, value, alias=None):
     """replay on the real code, no proxies: returns (violated, detail)."""
     obj, model, mod = _make(modn, clsn)
     prm = obj.ParameterDict[pname]
     name = prm.Name.strip()
+    name_in = alias or name
     is_int = isinstance(prm, P.intParameter)
     txt = str(int(value)) if is_int else repr(float(value))
-    entry = P.ParameterEntry(Name=name, sValue=txt, raw_entry=f'{name}, {txt}')
+    entry = P.ParameterEntry(Name=name_in, sValue=txt, raw_entry=f'{name_in}, {txt}')
     before = prm.value
     declared = (float(prm.Min), float(prm.Max)) if not is_int else [int(x) for x in prm.AllowableRange]      # as declared, before any reading code runs
     exc = None
@@ -427,7 +439,7 @@ def concrete_read(modn, clsn, pname, layer, bg, value):
                 P.ReadParameter(entry, prm, model)
             else:
                 ins = background_inputs(obj, pname) if bg == 'all-provided' else {}
-                ins[name] = entry
+                ins[name_in] = entry
                 if modn == 'hip_ra_x.hip_ra_x':
                     with shim.shadow((mod, 'read_input_file', lambda *a, **k: None)):
                         obj.InputParameters = ins
